@@ -589,6 +589,100 @@ def bomb_case(env, which):
     return {"which": which, "events": evs, "rss_growth_kb": r1 - r0, "input_kb": n_in // 1024, "inflates_to_kb": big // 1024}
 
 
+# --------------------------------------------------------------------------- loose-object bomb family
+LOOSE_SMALL_CAP = 64 * 1024
+_LOOSE_CACHE = {}
+
+
+def loose_file(enc, size):
+    """(file bytes, hex name) of a loose blob of `size` zero bytes in the legacy encoding (one zlib stream of
+    "blob <n>\\0" + payload) or the new-style one (pack-like type/size header + zlib stream of the bare payload);
+    built and hashed without materialising the payload.  The name is the true SHA-1."""
+    key = (enc, size)
+    if key not in _LOOSE_CACHE:
+        hdr = b"blob %d\0" % size
+        h = sha1(hdr)
+        c = zlib.compressobj(6)
+        out = [L.obj_hdr(L.OBJ_BLOB, size)] if enc == "newstyle" else [c.compress(hdr)]
+        chunk = b"\0" * (1 << 20)
+        left = size
+        while left:
+            piece = chunk if left >= len(chunk) else chunk[:left]
+            out.append(c.compress(piece))
+            h.update(piece)
+            left -= len(piece)
+        out.append(c.flush())
+        _LOOSE_CACHE[key] = (b"".join(out), h.hexdigest())
+    return _LOOSE_CACHE[key]
+
+
+def loose_bomb_case(env, c):
+    """one loose object (encoding x payload size) read through one route to the size limit and one read path,
+    with the peak of traced allocations during the read."""
+    import tracemalloc
+    enc, route, path, size, cap = c["enc"], c["route"], c["path"], c["size"], c["cap"]
+    data, h = loose_file(enc, size)
+    d = env.fresh("repo" if route == "repo" else "disk")
+    od = os.path.join(d, "objects") if route == "repo" else d
+    os.makedirs(os.path.join(od, h[:2]), exist_ok=True)
+    fpath = os.path.join(od, h[:2], h[2:])
+    with open(fpath, "wb") as f:
+        f.write(data)
+    if route == "repo":
+        with open(os.path.join(d, "config"), "ab") as f:
+            f.write(b"[core]\n\tbigFileThreshold = %d\n" % cap)
+
+    def open_store():
+        from dulwich.object_store import DiskObjectStore
+        if route == "default":
+            return DiskObjectStore(od), None
+        if route == "ctor":
+            return DiskObjectStore(od, loose_object_size_limit=cap), None
+        if route == "config":
+            from dulwich.config import ConfigDict
+            cfg = ConfigDict()
+            cfg.set((b"core",), b"bigFileThreshold", str(cap).encode())
+            return DiskObjectStore.from_config(od, cfg), None
+        if route == "repo":
+            from dulwich.repo import Repo
+            r = Repo(d)
+            return r.object_store, r
+        raise ValueError(route)
+
+    def rd():
+        from dulwich.objects import Blob, ShaFile
+        kw = {} if cap is None or route == "direct-default" else {"max_size": cap}
+        if path == "from_path":
+            return len(ShaFile.from_path(fpath, h.encode(), **kw).as_raw_string())
+        if path == "blob_from_path":
+            return len(Blob.from_path(fpath, h.encode(), **kw).as_raw_string())
+        if path == "from_file":
+            with open(fpath, "rb") as f:
+                return len(ShaFile.from_file(f, h.encode(), **kw).as_raw_string())
+        st, owner = open_store()
+        try:
+            if path == "getitem":
+                return len(st[h.encode()].as_raw_string())
+            if path == "get_raw":
+                return len(st.get_raw(h.encode())[1])
+            if path == "contains":
+                return -1 if h.encode() in st else -2
+            raise ValueError(path)
+        finally:
+            (owner or st).close()
+    gc.collect()
+    tracemalloc.start()
+    try:
+        t = timed(rd, soft=c.get("soft"))
+        peak = tracemalloc.get_traced_memory()[1]
+    finally:
+        tracemalloc.stop()
+    shutil.rmtree(d, ignore_errors=True)
+    gc.collect()
+    return {"event": {"path": f"loose:{path}", "outcome": t[0], "exc": t[1], "msg": t[2], "wall_ms": round(t[3], 2)},
+            "returned": t[4], "peak_kb": peak // 1024, "file_kb": len(data) // 1024}
+
+
 # --------------------------------------------------------------------------- (c) one ingestion under os-level interposition
 KEY_OPS = {"open_excl": "create", "open_w": "create", "chmod": "chmod", "fwrite": "write", "write": "write", "fflush": "flush",
            "fclose": "close", "close": "close", "unlink": "unlink", "rename": "rename", "replace": "replace"}
@@ -755,6 +849,8 @@ def run_case(env, c):
         return {"reads": {k2: _pack_result(v) for k2, v in r.items()}}
     if k == "bomb":
         return bomb_case(env, c["which"])
+    if k == "loosebomb":
+        return loose_bomb_case(env, c)
     if k == "tx":
         data = L.tx_scenarios()[c["scenario"]]
         return TxRun(env, c["path"], data, c.get("k"), c.get("exc")).run()
